@@ -3,8 +3,11 @@
 
   The fragment: raw text, `{print}` with directives, `{let $x: e /}`, `{if}/{elseif}/{else}`,
   `{foreach $x in e}…{ifempty}…{/foreach}`, `{for $i in range(a[, b[, c]])}` (c a positive literal),
-  `{switch}` (`{default}` last), `{let $x}…{/let}` content blocks (a buffer of their own), the expressions
-  of Props/C04c inside them.
+  `{switch}` (`{default}` last), `{let $x}…{/let}` content blocks (a buffer of their own), `{call}` with value
+  params, `{param k}…{/param}` content params and `data="all"` / `data="$e"` (soy.$$augmentMap) — against a CALLEE
+  ORACLE: `G name data`, what the generated function `name` returns, related by the hypothesis `CallRel` to the
+  `call` of the reference context `R : RefCtx` (registry, entry data, `call` as in Spec/Eval) — the expressions of
+  Props/C04c inside them.
 
   1. `toCmds` translates the commands, in the generator scope they are met in, to the statement AST of
      Spec/JsStmt; `walkCmds_renders`: the generator model writes EXACTLY `renderStmts` of the
@@ -3821,7 +3824,8 @@ variable (F : Bytes → List Expr → JVal → JOut) (G : Bytes → JVal → JOu
 
 /-- PARTIAL (C04, command level).  For a list of commands of the fragment — raw text, `{print}` with
     directives, `{let $x: e /}`, `{if}/{elseif}/{else}`, `{foreach}` / `{ifempty}`, `{for … in range(…)}`, `{switch}`,
-    `{let $x}…{/let}`, over the expressions of Props/C04c — met in the
+    `{let $x}…{/let}`, `{call}` with value / content params and `data="all"` / `data="$e"` (callee oracle `G`,
+    reference context `R`, hypothesis `CallRel G R`), over the expressions of Props/C04c — met in the
     generator scope `sc` with output variable `buf`:
     (a) the generator model writes exactly the statements `st` of the translation;
     (b) whenever these statements run to completion (Spec/JsStmt; every interpretation `F` of the
@@ -4451,6 +4455,103 @@ example : loopFnsRun (.dataRef 0 b!"xs" .nil) [(b!"xs", .arr [.str b!"a", .str b
 example : refCmds sampleF noRef .off (sampleLoopFns (.dataRef 0 b!"xs" .nil))
     { vars := [(b!"xs", .list [.str b!"a", .str b!"b"])], loops := [], ij := none, globals := [] } = .val b!"0F,1L," := rfl
 
+/-- `[{call sem.c data="all"}{param p: $a + 1 /}{param c}<{$a}>{/param}{/call}]` -/
+def sampleCall : CmdList :=
+  .cons (.rawText 0 b!"[") (.cons (.call 0 b!"sem.c" true none
+    (.value 0 b!"p" (.bin .add 0 (.dataRef 0 b!"a" .nil) (.int 0 1))
+      (.content 0 b!"c" (.mk 0 (.cons (.rawText 0 b!"<") (.cons (.print 0 (.dataRef 0 b!"a" .nil) []) (.cons (.rawText 0 b!">") .nil)))) .nil)))
+    (.cons (.rawText 0 b!"]") .nil))
+
+-- the content param is rendered into `param$1` first; the call's data is `opt_data` with the params laid over it
+set_option maxRecDepth 8000 in
+example : (toCmds .on b!"output" sampleCall ⟨[[]], 0⟩).map (fun r => printPieces (renderStmts false 1 r.1)) = some
+    b!"  output += '[';\n  var param$1 = '';\n  param$1 += '\\u003C';\n  param$1 += soy.$$escapeHtml(opt_data.a);\n  param$1 += '\\u003E';\n  output += sem.c(soy.$$augmentMap(opt_data, {p: ((opt_data.a) + (1)), c: param$1}), opt_sb, opt_ijData);\n  output += ']';\n" := rfl
+
+/-- a callee oracle: the function `sem.c` returns `p:c:a` of its data object (`{$p}:{$c|noAutoescape}:{$a}`) -/
+def sampleG (name : Bytes) (d : JVal) : JOut :=
+  if name == b!"sem.c" then
+    match d with
+    | .obj jd =>
+      (match prop jd b!"p", prop jd b!"c", prop jd b!"a" with
+        | .num p, .str c, .num a => .val (.str (F64.intDigits p ++ b!":" ++ c ++ b!":" ++ F64.intDigits a))
+        | _, _, _ => .unspec)
+    | _ => .unspec
+  else .unspec
+
+def sampleTmpl : Registry.Tmpl := { (default : Registry.Tmpl) with name := b!"sem.c" }
+
+/-- … and the reference's `call` for it: the template `sem.c` renders `p:c:a` of the data it is entered with -/
+def sampleR (entry : Spec.Eval.Binds) : RefCtx :=
+  ⟨[sampleTmpl], entry, fun _ ce =>
+    match Spec.Eval.find ce.entry b!"p", Spec.Eval.find ce.entry b!"c", Spec.Eval.find ce.entry b!"a" with
+    | some (.int p), some (.str c), some (.int a) => .val (F64.intDigits p ++ b!":" ++ c ++ b!":" ++ F64.intDigits a)
+    | _, _, _ => .error⟩
+
+theorem toJsV_num {v : Val} {i : Int} (h : toJsV v = some (.num i)) : v = .int i := by
+  cases v <;> simp [C04c.toJsV] at h
+  exact congrArg Val.int h.2
+
+theorem toJsV_str {v : Val} {t : Bytes} (h : toJsV v = some (.str t)) : v = .str t := by
+  cases v <;> simp [C04c.toJsV] at h
+  exact congrArg Val.str h
+
+theorem find_of_getD {b : Spec.Eval.Binds} {k : Bytes} {v : Val} (h : (Spec.Eval.find b k).getD .undefined = v)
+    (hv : v ≠ .undefined) : Spec.Eval.find b k = some v := by
+  cases hf : Spec.Eval.find b k with
+  | none => rw [hf] at h; exact absurd h.symm hv
+  | some w => rw [hf] at h; exact congrArg some h
+
+/-- the oracle pair satisfies the hypothesis of the call theorems -/
+theorem sampleG_rel (entry : Spec.Eval.Binds) : CallRel sampleG (sampleR entry) := by
+  intro name ce jd r hj hg
+  unfold sampleG at hg
+  split at hg
+  · rename_i hn
+    have hn' : name = b!"sem.c" := by simpa using hn
+    subst hn'
+    simp only at hg
+    have hp := C04c.toJsKvs_find ce.entry jd b!"p" hj
+    have hc := C04c.toJsKvs_find ce.entry jd b!"c" hj
+    have ha := C04c.toJsKvs_find ce.entry jd b!"a" hj
+    split at hg
+    · rename_i p c a h1 h2 h3
+      simp only [JOut.val.injEq] at hg; subst hg
+      rw [h1] at hp; rw [h2] at hc; rw [h3] at ha
+      have e1 := find_of_getD (toJsV_num hp) (by simp)
+      have e2 := find_of_getD (toJsV_str hc) (by simp)
+      have e3 := find_of_getD (toJsV_num ha) (by simp)
+      exact ⟨sampleTmpl, _, rfl, by simp only [sampleR, e1, e2, e3], rfl⟩
+    · cases hg
+  · cases hg
+
+def callRun (a : Int) : Option JVal :=
+  match toCmds .on b!"output" sampleCall ⟨[[]], 0⟩ with
+  | some r =>
+    (match execStmts sampleF sampleG 10 r.1 ⟨[(b!"a", .num a)], none, [(b!"output", .str [])]⟩ with
+      | .ok e => (e.locals.find? (·.1 == b!"output")).map (·.2)
+      | _ => none)
+  | none => none
+
+example : callRun 5 = some (.str b!"[6:<5>:5]") := rfl
+example : refCmds sampleF (sampleR [(b!"a", .int 5)]) .on sampleCall (sampleEnv 5) = .val b!"[6:<5>:5]" := rfl
+
+/-- the theorem on the sample, for every `a`: what the JavaScript leaves in `output` is what the reference renders -/
+example (a : Int) (jenv' : JEnv) (r : JsStmts × Scope) (h : toCmds .on b!"output" sampleCall ⟨[[]], 0⟩ = some r)
+    (ha : SoyVerif.Spec.JsSem.exact a = true)
+    (hx : execStmts sampleF sampleG 10 r.1 (sampleJEnv a) = .ok jenv') :
+    ∃ text, refCmds sampleF (sampleR (sampleEnv a).vars) .on sampleCall (sampleEnv a) = .val text ∧
+      BufIs b!"output" jenv' text :=
+  gen_correct_body_partial sampleF sampleG (sampleR (sampleEnv a).vars) .on (sampleG_rel _) sampleCall 0 r h (sampleEnv a) _ none rfl
+    (by simp [sampleEnv, C04c.toJsKvs, C04c.toJsV, ha]) jenv' 10 hx
+
+/-- the semantics of the call has teeth: were the params laid UNDER the data (`augmentMap` the other way round), a
+    param could not override a key of `data="all"` -/
+example : (match execStmts sampleF sampleG 10
+      (.cons (.call b!"output" b!"sem.c" .all [(b!"c", .str b!"x"), (b!"p", .num 1), (b!"a", .num 9)]) .nil)
+      ⟨[(b!"a", .num 5)], none, [(b!"output", .str [])]⟩ with
+    | .ok e => (e.locals.find? (·.1 == b!"output")).map (·.2)
+    | _ => none) = some (.str b!"1:x:9") := rfl
+
 /-! ## what is proved, and what remains outside
 
   PROVED, for command lists built from raw text, `{print e |d…}` (directive arguments literal, every
@@ -4461,7 +4562,8 @@ example : refCmds sampleF noRef .off (sampleLoopFns (.dataRef 0 b!"xs" .nil))
   numbers / strings against the specification's equality; `undefined` and lists / maps as switch value or label
   are outside the subset), `{let $x}…{/let}` (`var x$n = ''; x$n += …;` — the body is translated with the
   new buffer; `GoodBuf`: the buffer in use is no local the scope hands out and no name still to be
-  generated) — nested at will — with `e` in the expression
+  generated), `{call name}` / `{call name data="all"}` / `{call name data="$e"}` with `{param k: e /}` and
+  `{param k}…{/param}` (see CALLS below) — nested at will — with `e` in the expression
   fragment of Props/C04c (literals, arithmetic / comparison / logic, `?:`, `?:`-elvis, variables and
   parameters with `.k` / `[i]` / `?.k` accesses, length / isNonnull / floor / ceiling / round / min /
   max; no floats, integers a double holds exactly):
@@ -4486,8 +4588,24 @@ example : refCmds sampleF noRef .off (sampleLoopFns (.dataRef 0 b!"xs" .nil))
   exactly in the last iteration — for a range loop `v + step >= limit`, related to the length of the rest of the
   range by `rangeItems_step`).
 
-  OUTSIDE (no theorem at the command level): `range` with a computed step, `{call}` (needs a semantics of the generated FUNCTIONS and
-  of soy.$$augmentMap; `{param}` content blocks with it), `{msg}` (placeholders, plural), `{css}`, `{log}`, `{debugger}`, `$ij`, globals, print directives with
+  CALLS.  The statement `buf += callee(data, opt_sb, opt_ijData);` (Spec/JsStmt `.call`): the data object is `{}`,
+  `opt_data` or the value of the `data="$e"` expression (an object, else `unspec`), with the `key: value` list laid
+  over it (`soy.$$augmentMap`: the params first in every lookup, a later param before an earlier one); the
+  statements that render the content params into buffers `param$n` of their own come first (`toParams`,
+  `visitParams_renders`: the generator writes them in this order).  What the callee returns is the ORACLE
+  `G : Bytes → JVal → JOut` of the semantics; the reference side is `R : RefCtx` — the registry, the entry data of
+  the template (`data="all"` passes it on) and Spec/Eval's `call`.  The hypothesis `CallRel G R` ties them: when the
+  function returns on the JSON image of a data map, the name is a template of the registry, `call` renders it on
+  that map, and the function returned this text.  Under it `call_ok` / `params_ok` put `{call}` inside
+  `gen_correct_cmds_partial`; the environment relation `EnvRel R.entry …` now also says that `opt_data` is the JSON
+  image of the entry data (`gen_correct_body_partial`: `R.entry = env.vars`).  Props/C04e adds `CallRelE` (the
+  function throws only where `call` does not render) for the converse.  `CallRel` is the statement of this very
+  theorem one template down; it is NOT discharged here (no induction over the call depth: the whole-program theorem,
+  with the template header, is outside).  The harness property C04sem instantiates the oracle with the run of the
+  callee's translated body and compares with otto.
+
+  OUTSIDE (no theorem at the command level): `range` with a computed step, `{call}` to a `{deltemplate}` (`{delcall}`),
+  the discharge of `CallRel` (above), `{msg}` (placeholders, plural), `{css}`, `{log}`, `{debugger}`, `$ij`, globals, print directives with
   non-literal arguments, the template header (`opt_data = opt_data || {}`, `return output`) and
   the file level (namespaces, goog.provide / ES6 imports — covered for SHAPE by C14, not for meaning). -/
 
